@@ -238,6 +238,7 @@ def task_analyze(task):
             m = symengine.sympify(g)
             recs = rb.get_recurrences(m)
             gr["monomials"] = [str(x) for x in recs.monomials]
+            gr["monomial_dumps"] = [dump_expr(x) for x in recs.monomials]
             gr["rec_dict"] = [[dump_expr(k), dump_expr(v)] for k, v in recs.recurrence_dict.items()]
             gr["init_dict"] = [[dump_expr(k), dump_expr(v)] for k, v in recs.init_values_dict.items()]
             gr["matrix"] = [[str(recs.recurrence_matrix[i, j]) for j in range(recs.recurrence_matrix.shape[1])]
